@@ -468,6 +468,15 @@ def _bounded_by_height(g, call, o, _nofallback=False):
     chain = []
     cur = o
     for _ in range(12):
+        # a narrowing on the way from the clamp to the use undoes the clamp: the clamp bounded the wide value
+        y_ = g.v(cur) if cur and cur[0] == 'v' else None
+        while y_ is not None and y_.op in ('sext', 'zext', 'trunc', 'bitcast', 'freeze'):
+            if y_.op == 'trunc':
+                src_ = g.v(y_.a[0])
+                if src_ is not None and src_.ty in ('i64', 'i128') and y_.ty in ('i32', 'i16'):
+                    return False
+            cur = y_.a[0]
+            y_ = g.v(cur) if cur and cur[0] == 'v' else None
         x = g.v(g.strip_casts(cur))
         if x is None:
             break
